@@ -109,13 +109,13 @@ func main() {
 	p := func(x, y, z float64) v3.Vec { return v3.Vec{X: x, Y: y, Z: z} }
 	menu3 := []*sdf.Triangle3{
 		T(p(0, 0, 0), p(1, 0, 0), p(0, 1, 0)),
-		T(p(1, 0, 0), p(0, 1, 0), p(0, 0, 1)),                            // shares two vertices with the first
-		T(p(0, 0, 0), p(1, 0, 0), p(0, 1, 0)),                            // exact duplicate of the first
+		T(p(1, 0, 0), p(0, 1, 0), p(0, 0, 1)),                                // shares two vertices with the first
+		T(p(0, 0, 0), p(1, 0, 0), p(0, 1, 0)),                                // exact duplicate of the first
 		T(p(-1.5, -2.25, -3), p(-1, -1, -1), p(-0.00001, 12345.678912, 0.1)), // negative, tiny, large
 		T(p(0.12344, 0.12346, 0.5), p(0.33333333, 2.0/3, 16777217), p(5, 5, 5)),
-		T(p(2, 2, 2), p(2+5e-7, 2, 2), p(2, 3, 2)),                       // sliver: two corners closer than 1e-6
-		T(p(1e-5, 0, 0), p(0, 1e-5, 0), p(0, 0, 1e-5)),                   // tiny but non-degenerate
-		T(p(0, 1, 0), p(1, 0, 0), p(0, 0, 0)),                            // the first one with reversed winding
+		T(p(2, 2, 2), p(2+5e-7, 2, 2), p(2, 3, 2)),     // sliver: two corners closer than 1e-6
+		T(p(1e-5, 0, 0), p(0, 1e-5, 0), p(0, 0, 1e-5)), // tiny but non-degenerate
+		T(p(0, 1, 0), p(1, 0, 0), p(0, 0, 0)),          // the first one with reversed winding
 	}
 	l3 := lists(menu3, vlib.Pick(c, 3, 4))
 	states += c.ParFor(len(l3), func(i int) {
@@ -315,10 +315,10 @@ func main() {
 	_ = r2
 	c.Finish(vlib.Coverage{
 		States: states, Transitions: trans, Evaluations: states, Nontrivial: states - 3,
-		Rule:       "states = (list, writer path) pairs written and decoded with go3mf.OpenReader / dxf.FromFile / encoding/xml; transitions = vertices / lines compared; non-trivial = non-empty lists",
-		Samples:    samples,
-		Exhaustive: true,
-		Bounds:     map[string]any{"menu_size": 8, "list_length": "0..3 (4 thorough), with repetition, ordered"},
+		Rule:        "states = (list, writer path) pairs written and decoded with go3mf.OpenReader / dxf.FromFile / encoding/xml; transitions = vertices / lines compared; non-trivial = non-empty lists",
+		Samples:     samples,
+		Exhaustive:  true,
+		Bounds:      map[string]any{"menu_size": 8, "list_length": "0..3 (4 thorough), with repetition, ordered"},
 		Assumptions: []string{"3MF vertices are compared with a tolerance of 1.5e-4 (four decimals plus the 1e-6 de-duplication grid of the mesh builder)", "DXF coordinates to the format's six decimals, SVG to its two decimals"},
 	})
 }
